@@ -70,7 +70,7 @@ def unit_validate(tier, n, only=None, distinct=False):
     M, xrows = W.full_struct(w, L, 'mjModel_', 'MJMODEL_POINTERS', sizes, 'm', default_size=n, sym_ints=True)
     for (arr, nadrs, target, num) in rows:
         if target not in M.sizes: M.set(target, n); M.sizes[target] = n
-    ex = llsym.Exec(mod(), loop_bound=4 * n + 8, max_paths=20000)
+    ex = llsym.Exec(mod(), loop_bound=4 * n + 8, max_paths=int(os.environ.get('VERIF_C31_PATHS', '120000')))
     st = w.to_state(ex)
     res = ex.run('@mj_validateReferences', [w.P(M.o)], st)
     ck.note_results(ex, res)
